@@ -42,6 +42,9 @@ def cases(tier, seed):
     if alpha is None:
       out.append({"fam": "fixed", "cls": "quantized_linear",
                   "kw": {"bits": bits, "integer": integer, "keep_negative": keep, "symmetric": sym}})
+  # the one-bit sign formats (two codes, no zero): an input between them is rounded to either with its own probability
+  for integer in (0, 1):
+    out.append({"fam": "fixed", "cls": "quantized_linear", "kw": {"bits": 1, "integer": integer, "keep_negative": True, "symmetric": 1}})
   for bits, integer, slope in P(bitsr, [0, 1, 2], [0.0, 0.25, 0.5]):
     if slope and slope * 2 ** (bits - 1) < 1:
       continue
@@ -54,6 +57,11 @@ def cases(tier, seed):
     out.append({"fam": "po2", "cls": "quantized_po2", "kw": {"bits": bits, "max_value": mv}})
     for slope in (0, 0.25):
       out.append({"fam": "po2", "cls": "quantized_relu_po2", "kw": {"bits": bits, "max_value": mv, "negative_slope": slope}})
+  # floor mode together with the stochastic flag: inference must still be the floor exponent of the deterministic twin
+  for bits, mv in P([3, 4], [None, 2.0]):
+    out.append({"fam": "po2", "cls": "quantized_po2", "kw": {"bits": bits, "max_value": mv, "log2_rounding": "floor"}, "inference_only": True})
+    out.append({"fam": "po2", "cls": "quantized_relu_po2", "kw": {"bits": bits, "max_value": mv, "log2_rounding": "floor"},
+                "inference_only": True})
   for alpha in (None, 1.0, 2.0, "auto", "auto_po2"):
     for use_01 in (False, True):
       out.append({"fam": "bt", "cls": "binary", "kw": {"alpha": alpha, "use_01": use_01}})
@@ -216,13 +224,14 @@ def train_oracle(ctx, case, base, x, outs, real, Kg):
     ks = np.array([fixed.output_code(fmt, y) for (y, _) in allouts])
     ctx.evals(ks.size)
     ctx.nontrivial_many((cls, sorted(kw.items(), key=str)), x[~is_code])
-    half = (np.abs(ks * 2 - np.round(ks * 2)) < 1e-9) & (np.abs(ks - np.round(ks)) > 1e-9)
+    ltol = 1e-9 + 4 * slack      # the one-bit linear format's codes +-qs/2 are computed as (sign-ish) - 0.5 in float32
+    half = (np.abs(ks * 2 - np.round(ks * 2)) < 1e-9) & (np.abs(ks - np.round(ks)) > ltol)
     if half.any():
       j, i = np.argwhere(half.reshape(len(allouts), -1))[0]
       ctx.violation(dict(base, kind="half_code_emitted_in_training"),
                     "x=%r -> %r = %g steps (a half code; stochastic_round called with precision 0.5)" % (
                         float(x.flat[i]), float(allouts[j][0].flat[i]), ks[j].flat[i]), {"kw": kw})
-    off = (np.abs(ks - np.round(ks)) > 1e-9) & ~half
+    off = (np.abs(ks - np.round(ks)) > ltol) & ~half
     if off.any():
       j, i = np.argwhere(off.reshape(len(allouts), -1))[0]
       ctx.violation(dict(base, kind="off_lattice_in_training"),
